@@ -117,6 +117,9 @@ func runProperty(def *propDef, tier, repo, verif, evid string, seed int) (code i
 		if tier == "thorough" && def.Thorough != nil {
 			def.Thorough(c)
 		}
+		if tier == "thorough" {
+			runMutantCorpus(c, repo, verif)
+		}
 	}
 	return c.Finish(verif, evid, def.Meta, seed, fatal)
 }
